@@ -263,12 +263,15 @@ def unparse_FormattedValue(node: FormattedValue, qm) -> unparse_gen_t:
         format_spec = ":" + format_spec
     if value[0] == "{":
         value = " " + value
+    conversion = ""
+    if node.conversion != -1:
+        conversion = "!" + chr(node.conversion)
     if format_spec and format_spec[-1] == "}":
         format_spec = format_spec + " "
     # f'{{di:ct}:.2f}' (SyntaxError)
     # will be converted as
     # f'{ {di:ct}:.2f}' (Good)
-    return "{" + value + format_spec + "}"
+    return "{" + value + conversion + format_spec + "}"
 
 
 def unparse_Starred(node: Starred) -> unparse_gen_t:
